@@ -6,7 +6,7 @@
 From CB Require Import Spec Unstable.
 From Coq Require Import Permutation.
 From CBP Require Import Step RefDefs C02Lemmas Arith AbsLemmas AllOps FaultDefs FaultPrims FaultDropA FaultDropB FaultUser
-     Iters DrainP ExtendIo CmpHash Ctors PhysMoves MoreOps UnstableEq Access Views RefTruncate FillExtend FaultFrame SpecCorollaries.
+     Iters DrainP ExtendIo CmpHash Ctors PhysMoves MoreOps UnstableEq Access Views RefTruncate FillExtend FaultFrame SpecCorollaries ValueCorollaries FaultGeneric FaultHistory.
 
 
 Theorem C14_write :
@@ -33,3 +33,45 @@ Theorem C14_consume :
   forall k, refines_op (OConsume Std k).
 Proof. exact (fun k => exec_refines (OConsume Std k)). Qed.
 Print Assumptions C14_consume.
+
+Theorem C14_write_keeps_newest :
+  forall fam src s w v s' w',
+  WF s -> fault w = None -> zlen src < W ->
+  exec (OWrite fam src) s w = (Ok v, s', w') ->
+  v = OutZ (zlen src) /\
+  vals (abs s') = lastn (Z.to_nat (cap s)) (vals (abs s) ++ vals src) /\
+  zlen (abs s') = Z.min (cap s) (zlen (abs s) + zlen src).
+Proof. exact (exec_write_vals). Qed.
+Print Assumptions C14_write_keeps_newest.
+
+Theorem C14_read_from_front :
+  forall fam dst s w n dst' s' w',
+  WF s -> fault w = None -> zlen dst < W ->
+  exec (ORead fam dst) s w = (Ok (OutRead n dst'), s', w') ->
+  let k := Nat.min (length dst) (length (abs s)) in
+  n = Z.of_nat k /\ dst' = firstn k (abs s) ++ skipn k dst /\ abs s' = skipn k (abs s).
+Proof. exact (exec_read_vals). Qed.
+Print Assumptions C14_read_from_front.
+
+Theorem C14_fill_buf_prefix :
+  forall fam s w p s' w',
+  WF s -> fault w = None ->
+  exec (OFillBuf fam) s w = (Ok (OutList p), s', w') ->
+  (exists t, abs s = p ++ t) /\ (abs s <> [] -> p <> []) /\ abs s' = abs s /\ w' = w.
+Proof. exact (exec_fill_buf_prefix). Qed.
+Print Assumptions C14_fill_buf_prefix.
+
+Theorem C14_consume_front :
+  forall fam k s w v s' w',
+  WF s -> fault w = None -> 0 <= k < W ->
+  exec (OConsume fam k) s w = (Ok v, s', w') ->
+  abs s' = skipn (Z.to_nat (Z.min k (zlen (abs s)))) (abs s).
+Proof. exact (exec_consume_vals). Qed.
+Print Assumptions C14_consume_front.
+
+Theorem C14_never_fails :
+  forall o s w,
+  io_op o -> WF s -> fault w = None ->
+  exists v s' w', exec o s w = (Ok v, s', w') /\ WF s' /\ cap s' = cap s.
+Proof. exact (io_never_fails). Qed.
+Print Assumptions C14_never_fails.
